@@ -20,6 +20,7 @@ import (
 	"encoding/binary"
 	"fmt"
 	"io"
+	"math"
 	"sort"
 	"sync"
 	"sync/atomic"
@@ -337,6 +338,10 @@ type worker struct {
 	// change is younger than the ttl, or the record changed while the pass tried to remove it): none of its
 	// versions expires, they are left to the ordinary compaction rules
 	liveEventRawKey []byte
+
+	// goneEventRawKey is the event key this pass has removed as a whole (revision record and versions in one
+	// write batch): its versions, still visible in the snapshot iterated on, need no further delete
+	goneEventRawKey []byte
 }
 
 type workerConfig struct {
@@ -608,17 +613,22 @@ func (w *worker) compactIfExpired(iter storage.Iter, rawKey []byte, revision uin
 			rev := binary.BigEndian.Uint64(value[:8])
 			if rev <= w.timeoutRevision {
 				klog.InfoS("compact expired revision key", "raw key", string(rawKey), "rev", rev)
-				err = w.compactCurrent(iter, rawKey, rev)
+				err = w.expireEvent(iter, rawKey, rev)
 				if err != nil {
 					// the record is still there (it was rewritten meanwhile, or the delete failed): the key is
 					// not removed as a whole, so its versions stay as well
 					w.liveEventRawKey = rawKey
+				} else {
+					w.goneEventRawKey = rawKey
 				}
 				return true, err
 			}
 			// the newest change of this Event is younger than the ttl: an older version of it may still be
 			// what a read at or above the compaction revision has to return
 			w.liveEventRawKey = rawKey
+		} else if bytes.Equal(rawKey, w.goneEventRawKey) {
+			// removed together with its revision record a moment ago; the snapshot iterated on still shows it
+			return true, nil
 		} else if revision <= w.timeoutRevision && !bytes.Equal(rawKey, w.liveEventRawKey) { // object key timeout
 			klog.InfoS("compact expired object key", "raw key", string(rawKey), "rev", revision)
 			return true, w.compactKey(iter.Key(), rawKey, revision)
@@ -626,6 +636,46 @@ func (w *worker) compactIfExpired(iter storage.Iter, rawKey []byte, revision uin
 	}
 
 	return false, nil
+}
+
+// expireEvent removes an expired Event as a whole: the compare-and-delete of its revision record (the iterator
+// stands on it) and the deletes of all its versions are ONE write batch, so that an interrupted or partly failing
+// pass never leaves versions without their revision record (a key that reads as present but refuses every guarded
+// write) - either the Event is gone, or it is untouched and the next pass tries again.
+func (w *worker) expireEvent(iter storage.Iter, rawKey []byte, rev uint64) error {
+	if w.isSkippedRawKey(rawKey, rev) {
+		return nil
+	}
+	w.metricCli.EmitCounter("compact", 1)
+
+	// collect the versions first: an engine may hold a lock from BeginBatchWrite to Commit
+	var versions [][]byte
+	vit, err := w.store.Iter(context.Background(), w.EncodeObjectKey(rawKey, 1), w.EncodeObjectKey(rawKey, math.MaxUint64), w.tso, 0)
+	if err == nil {
+		for {
+			if err = vit.Next(context.Background()); err != nil {
+				break
+			}
+			versions = append(versions, vit.Key())
+		}
+		_ = vit.Close()
+		if err == io.EOF {
+			err = nil
+		}
+	}
+	if err == nil {
+		batch := w.store.BeginBatchWrite()
+		batch.DelCurrent(iter)
+		for _, key := range versions {
+			batch.Del(key)
+		}
+		err = batch.Commit(context.Background())
+	}
+	if err != nil {
+		w.metricCli.EmitCounter("compact.err", 1)
+		w.updateSkippedRawKey(rawKey, rev, err)
+	}
+	return err
 }
 
 // checkCompactRace will guarantee range request and compact request don't conflict
